@@ -3,6 +3,7 @@ package main
 import (
 	"errors"
 	"fmt"
+	"math"
 	"strings"
 
 	"github.com/0xrawsec/sod"
@@ -23,6 +24,8 @@ type Hk struct {
 	U     string `sod:"unique,upper"`
 	Mark  string
 	Class int
+	// Ratio is computed by Transform; for class 8 the result has no JSON form (NaN)
+	Ratio float64
 }
 
 type hkEvent struct {
@@ -41,6 +44,9 @@ func (h *Hk) Transform() {
 	hkLog = append(hkLog, hkEvent{Kind: "T", Obj: h, Name: h.Name, U: h.U, FS: hkFS(), Dump: hkDump()})
 	h.Name = h.Name + "TX"
 	h.Mark = "seen:" + h.U
+	if h.Class == 8 {
+		h.Ratio = math.NaN()
+	}
 }
 
 var errHkInvalid = errors.New("hk: invalid")
@@ -87,18 +93,19 @@ func runC15(c *Ctx) {
 		CSize    int
 		Pre      int  // objects stored before
 		Reopen   bool // the handle is closed and re-opened before the call (schema loaded from disk)
+		NaN      bool // the offender is valid but its Transform makes it unserialisable (instead of invalid)
 	}
 	var scens []scen
 	for pre := 0; pre <= 2; pre++ {
 		for _, off := range []int{-1, 0} {
-			scens = append(scens, scen{"single", 1, off, 0, pre, false})
+			scens = append(scens, scen{"single", 1, off, 0, pre, false, false})
 		}
 		maxN := 3
 		for n := 1; n <= maxN; n++ {
 			for off := -1; off < n; off++ {
-				scens = append(scens, scen{"many", n, off, 0, pre, false})
+				scens = append(scens, scen{"many", n, off, 0, pre, false, false})
 				for _, cs := range []int{1, 2} {
-					scens = append(scens, scen{"bulk", n, off, cs, pre, false})
+					scens = append(scens, scen{"bulk", n, off, cs, pre, false, false})
 				}
 			}
 		}
@@ -106,6 +113,12 @@ func runC15(c *Ctx) {
 	for _, sc := range append([]scen{}, scens...) {
 		sc.Reopen = true
 		scens = append(scens, sc)
+	}
+	for _, sc := range append([]scen{}, scens...) {
+		if sc.Offender >= 0 {
+			sc.NaN = true
+			scens = append(scens, sc)
+		}
 	}
 	item := 0
 	for _, cfg := range cfgs {
@@ -158,6 +171,9 @@ func runC15(c *Ctx) {
 						h := &Hk{Name: name, U: fmt.Sprintf("%s-m%d", name, i)}
 						if i == sc.Offender {
 							h.Class = 9
+							if sc.NaN {
+								h.Class = 8
+							}
 						}
 						objs = append(objs, h)
 						hs = append(hs, h)
@@ -197,7 +213,12 @@ func runC15(c *Ctx) {
 							expectStored[i] = true
 						}
 					}
-					if sc.Offender >= 0 {
+					if sc.Offender >= 0 && sc.NaN {
+						if err == nil {
+							fail("unserialisable-accepted|"+sc.Entry, "an object that its Transform made unserialisable (NaN) was accepted")
+							return
+						}
+					} else if sc.Offender >= 0 {
 						if !errors.Is(err, sod.ErrInvalidObject) {
 							fail("invalid-class|"+sc.Entry, fmt.Sprintf("an object whose Validate fails was answered with %v, not ErrInvalidObject", err))
 							return
@@ -309,7 +330,7 @@ func runC15(c *Ctx) {
 		}
 	}
 	c.Meta(map[string]interface{}{
-		"rule":      "every insertion entry point (single, Many with the offender at each position or none, Bulk with chunk sizes 1 and 2) x 0..2 pre-stored objects x {same handle, handle closed and re-opened before the call} x 4 name classes x 4 configurations, with a collection type whose Validate accepts only what Transform followed by the schema's case transforms produce; a recorder inside the hooks captures, at every hook call, the number of file mutations and a hash of the complete handle. Oracles: Transform precedes Validate per object, Validate observes canonical case, nothing is modified before the last Validate of a call (single/Many), stored = transformed, invalid => ErrInvalidObject and invisible through All/Get/Search. Non-trivial = scenarios with an offender or a case-mixed name.",
+		"rule":      "every insertion entry point (single, Many with the offender at each position or none, Bulk with chunk sizes 1 and 2) x 0..2 pre-stored objects x {same handle, handle closed and re-opened before the call} x 4 name classes x 4 configurations, with a collection type whose Validate accepts only what Transform followed by the schema's case transforms produce; the offender is either invalid or made unserialisable by its own Transform; a recorder inside the hooks captures, at every hook call, the number of file mutations and a hash of the complete handle. Oracles: Transform precedes Validate per object, Validate observes canonical case, nothing is modified before the last Validate of a call (single/Many), stored = transformed, invalid => ErrInvalidObject and invisible through All/Get/Search. Non-trivial = scenarios with an offender or a case-mixed name.",
 		"scenarios": len(scens), "configs": cfgs,
 	})
 }
